@@ -14,6 +14,9 @@ pub mod c12;
 pub mod c13;
 pub mod c14;
 pub mod c16;
+pub mod c17;
+pub mod c18;
+pub mod c25;
 pub mod c28;
 pub mod workload;
 
@@ -41,6 +44,10 @@ pub fn all() -> Vec<PropDef> {
         PropDef { id: "C14", cases: c14::cases, run: c14::run14 },
         PropDef { id: "C15", cases: c14::cases, run: c14::run15 },
         p!("C16", c16),
+        p!("C17", c17),
+        p!("C18", c18),
+        p!("C25", c25),
+        PropDef { id: "C26", cases: c25::cases26, run: c25::run26 },
         p!("C28", c28),
     ]
 }
